@@ -242,8 +242,25 @@ ALPHABET = list("0123456789") * 3 + list("+-_.eE: \t\n") * 2 + list("ï¼‘ï¼’Ù£Ù Û
     list("aonxT/") + list("-:") * 3
 
 
+def random_codepoint(rng):
+    r = rng.random()
+    if r < 0.4:
+        c = rng.randrange(0x20, 0x7F)
+    elif r < 0.7:
+        c = rng.randrange(0x0, 0x3100)
+    elif r < 0.9:
+        c = rng.randrange(0x0, 0x20000)
+    else:
+        c = rng.randrange(0x0, 0x110000)
+    if 0xD800 <= c <= 0xDFFF:
+        c = 0x2028
+    return chr(c)
+
+
 def random_text(rng):
     n = rng.choice([0, 1, 2, 3, 4, 5, 6, 8, 10, 12, 19, 20])
+    if rng.random() < 0.25:      # arbitrary Unicode, not only the characters the grammars care about
+        return "".join(random_codepoint(rng) for _ in range(n))
     return "".join(rng.choice(ALPHABET) for _ in range(n))
 
 
